@@ -394,11 +394,19 @@ fn run_one(sc: &Value, attempt: u64) -> (Vec<Value>, Value) {
     let rt = if s(sc, "rt", "multi") == "current" {
         tokio::runtime::Builder::new_current_thread().enable_all().build().unwrap()
     } else {
-        tokio::runtime::Builder::new_multi_thread()
-            .worker_threads(3)
-            .enable_all()
-            .build()
-            .unwrap()
+        let mut b = tokio::runtime::Builder::new_multi_thread();
+        b.worker_threads(3).enable_all();
+        // diagnosis build only (RUSTFLAGS --cfg tokio_unstable): every task's spawn site and end
+        #[cfg(tokio_unstable)]
+        {
+            b.on_task_spawn(|m| {
+                eprintln!("TASK spawn {} {}", m.id(), m.spawned_at());
+            });
+            b.on_task_terminate(|m| {
+                eprintln!("TASK end {}", m.id());
+            });
+        }
+        b.build().unwrap()
     };
     let sc2 = sc.clone();
     let rec = Arc::new(Recorder {
@@ -878,8 +886,11 @@ async fn run_c17(sc: &Value, attempt: u64, rec: Arc<Recorder>) -> Value {
     rustrtc::verif::set_probe(None);
     *plan.a.lock() = None;
     *plan.b.lock() = None;
+    let mut task_trace: Vec<usize> = vec![tasks_settled, alive_tasks()];
     pair.a.release_aux();
     pair.b.release_aux();
+    tokio::time::sleep(Duration::from_millis(50)).await;
+    task_trace.push(alive_tasks());
     if v.pc.lock().is_some() {
         log("life", &victim, "fire", json!({"event": "Drop", "ord": 4}));
     }
@@ -887,7 +898,11 @@ async fn run_c17(sc: &Value, attempt: u64, rec: Arc<Recorder>) -> Value {
         log("life", &other.label, "fire", json!({"event": "Drop", "ord": 0}));
     }
     pair.a.drop_pc();
+    tokio::time::sleep(Duration::from_millis(50)).await;
+    task_trace.push(alive_tasks());
     pair.b.drop_pc();
+    tokio::time::sleep(Duration::from_millis(50)).await;
+    task_trace.push(alive_tasks());
     let other_final_peer = format!("{:?}", other.peer_state().unwrap());
     let final_peer = format!("{:?}", v.peer_state().unwrap());
     let final_reason = v.reason().to_string();
@@ -903,8 +918,19 @@ async fn run_c17(sc: &Value, attempt: u64, rec: Arc<Recorder>) -> Value {
     let rel_ms = t_rel.elapsed().as_millis() as u64;
     let end_tasks = alive_tasks();
     let end_socks = socket_count();
+    // diagnosis only (VERIF_LATE_RELEASE_S): does whatever is still alive go away later (a deadline) or never?
+    let mut late_release_ms: i64 = -1;
+    if !released {
+        if let Some(extra) = std::env::var("VERIF_LATE_RELEASE_S").ok().and_then(|x| x.parse::<u64>().ok()) {
+            if wait_until(Duration::from_secs(extra), || alive_tasks() <= base_tasks && socket_count() <= base_socks).await {
+                late_release_ms = t_rel.elapsed().as_millis() as i64;
+            }
+        }
+    }
     // everything logged after this marker belongs to the runtime shutdown, not to the scenario
-    log("life", &victim, "done", json!({}));
+    log("life", &victim, "done", json!({"late_release_ms": late_release_ms}));
+    #[cfg(tokio_unstable)]
+    eprintln!("TASK marker done released={released}");
     let leak_detail = if released { vec![] } else { socket_details() };
     rec.drain();
     let hit = fired1
@@ -931,7 +957,7 @@ async fn run_c17(sc: &Value, attempt: u64, rec: Arc<Recorder>) -> Value {
         "dc_was_open": dc_was_open, "dc_closes": dc_closes,
         "other_dc_was_open": other_open, "other_dc_closes": other_closes,
         "api": api, "api_hangs": api.iter().filter(|a| a["hang"] == true).count(),
-        "base_tasks": base_tasks, "base_socks": base_socks, "tasks_settled": tasks_settled,
+        "base_tasks": base_tasks, "base_socks": base_socks, "tasks_settled": tasks_settled, "task_trace": task_trace,
         "end_tasks": end_tasks, "end_socks": end_socks, "released": released, "leak_detail": leak_detail, "rel_ms": rel_ms,
         "notes": notes, "probes": plan.nprobe.load(Ordering::Relaxed),
         "other": other_json,
